@@ -153,6 +153,10 @@ func runC04(c *Ctx) {
 	jsonTextAsData(c, "R5")
 	c.shared("R7", "C14/R4", "what -o writes is the root selected last: every selector's result becomes a root (a null result included)", keyHas("selector-root-unconditional", "root-list"), func(s *Ctx) { rootsPerValue(s, "R4") })
 	stringIndexArm(c, "R8")
+	c.shared("R10", "C15/R3", "a program that only reads leaves the document as it was: sort works on a clone with fresh cells (assigning into the sorted copy does not write into the document)", keyHas("sort-clone", "array.sort effects"), func(s *Ctx) { c15R3(s, nativeMethods(s.P)) })
+	if eu := c.P.LangFunc("(*Evaluator).evalUnaryExpr"); eu != nil {
+		c.shared("R11", "C09/R5", "++ / -- on a copy (a for-in variable) does not reach the document: numbers are never updated in place, the new value is assigned through evalAssignment", nil, func(s *Ctx) { incdecTable(s, "R5", eu) })
+	}
 	c.shared("R9", "C09/R3", "a program that does not assign to the document leaves it as read: a copied null is a plain null (it does not keep the link to the object it was read from, through which a later assignment to the copy would create a member in the document)", keyHas("copy ValueNil", "copy-on-insert"), c09R3)
 	c.note("R6 encoder-output-unmodified: GetRootJson returns exactly string(json.MarshalIndent(ToGoValue(root), \"\", \"  \")) and json(v) exactly that of its argument: no text is produced or rewritten outside encoding/json (a hand-written fast path or a post-processing of the encoder's text is where escaping goes wrong).")
 	c.checkArm("R6", "GetRootJson", p.LangFunc("(*Evaluator).GetRootJson"), armSpec{
@@ -293,6 +297,30 @@ func cycleGuard(c *Ctx, rule, fnName string) {
 	if scanIf == nil {
 		c.violated(rule, key+" scan", p.Pos(fn.Pos()), "no loop over the path (here or in a helper given the path and the receiver) that returns when isSame(path element, receiver) holds")
 		return
+	}
+	// the cycle verdict is given by the scan alone: every other return that yields the same result as the
+	// scan's hit (a depth cap, say) refuses values that are not cyclic
+	{
+		hit, _ := scanIf.Block().Succs[0].Instrs[len(scanIf.Block().Succs[0].Instrs)-1].(*ssa.Return)
+		if hit != nil {
+			verdict := ""
+			for _, v := range effectiveResults(hit) {
+				verdict += p.Render(v) + " , "
+			}
+			for _, r := range returnsOf(fn) {
+				if r == hit {
+					continue
+				}
+				same := ""
+				for _, v := range effectiveResults(r) {
+					same += p.Render(v) + " , "
+				}
+				if same == verdict {
+					c.violated(rule, key+" cycle-verdict-only-from-scan", p.InstrPos(r), "the cycle verdict ("+strings.TrimSuffix(verdict, " , ")+") is also returned here, not from the path scan: values that are not cyclic (merely deep) are refused or rendered as a cycle")
+				}
+			}
+			c.ok(rule, key+" cycle-verdict-from-scan", p.InstrPos(hit), "the scan's hit returns the cycle verdict")
+		}
 	}
 	// the scan is under the flag
 	known, val := FactsOf(fn).At(scanBlock).Truth(flag)
